@@ -38,10 +38,13 @@ class Contract:
     unroll: int = 0            # >0: bounded mode (loops unrolled, no invariants) - never counted as proved
     cases: list = None         # optional list of (label, extra requires) case splits
     post_on_raise: dict = field(default_factory=dict)  # exception -> [(label, expr)] that must hold when it is raised
+    raises_bounds: dict = field(default_factory=dict)  # exception -> (must_cond, may_cond): must => raised => may
+    exports: dict = field(default_factory=dict)      # spec term -> ghost expr: skolem function defined by a ghost at exit
     lists: dict = field(default_factory=dict)       # local name (or 'result') -> {field: sort}: lists built by the function
     defs: list = field(default_factory=list)        # definitional equations of spec constants (assumed, never obliged)
     native_ghost: dict = field(default_factory=dict)  # ghost name -> python expr over inputs/result (native replay)
     mod_types: dict = field(default_factory=dict)
+    applies: Callable = None   # (bound call frame) -> bool: which variant of a function's contract fits a call site
     variant: str = ''          # label of a case split (mode, None-ness of optionals): same function, other env
     notes: str = ''
 
@@ -84,4 +87,5 @@ class Group:
     assumptions: list = field(default_factory=list)   # free-text assumptions for the evidence
     trusted: list = field(default_factory=list)
     not_covered: list = field(default_factory=list)
+    callees: list = field(default_factory=list)      # contracts of other groups used only at call sites
     bounded: list = field(default_factory=list)      # [{'name', 'props', 'cmd': [argv...]}] bounded stand-ins (never counted as proved)
